@@ -121,6 +121,13 @@ def analyse(prop, spec, ops, model, impl, crashes):
             if int(a["steps"]) > meta["bound"]:
                 real.append(dict(meta=meta, kind="step-bound-exceeded", op=line, impl=impl[i], bound=meta["bound"]))
                 ok_here = False
+        if "bound" in spec["impl"] and meta.get("tbound_ns") is not None and "ns" in a:
+            # wall-clock guard for work the step counters cannot see (time spent inside libcore
+            # or libc routines called by the crate); the executor reports the minimum of up to
+            # three runs, the bound is ~100x the cost observed on the unchanged tree
+            if int(a["ns"]) > meta["tbound_ns"]:
+                real.append(dict(meta=meta, kind="time-bound-exceeded", op=line, impl=impl[i][:300], bound_ns=meta["tbound_ns"]))
+                ok_here = False
         # --- model against implementation
         if meta.get("allow_model_ptroob") and m["head"] == "fault" and m.get("fclass") == "ptroob":
             # observation O2: pointer arithmetic leaving the allocation without a read is a
